@@ -7,7 +7,7 @@
    written from osmformat.proto. *)
 From Coq Require Import ZArith List Bool.
 From Verif Require Import Base.Int64 Pbf.Tree Pbf.Model Pbf.Spec Pbf.Header Pbf.CheckLib Pbf.ProofsArith Pbf.ProofsIndep
-     Pbf.ProofsDecode Pbf.ProofsDense Pbf.ProofsAll Pbf.ProofsHeader Pbf.ProofsFile Pbf.ProofsNoPanic Pbf.ProofsLayout Pbf.ProofsHeaderLayout Pbf.ProtoTypes Pbf.Dispatch Pbf.GenOk C01.Compose.
+     Pbf.ProofsDecode Pbf.ProofsDense Pbf.ProofsAll Pbf.ProofsHeader Pbf.ProofsFile Pbf.ProofsNoPanic Pbf.ProofsLayout Pbf.ProofsHeaderLayout Pbf.ProtoTypes Pbf.Dispatch Pbf.GenOk C01.Compose Pipeline.Exec.
 From VerifGen Require GenProto GenPbfCode.
 Import ListNotations.
 Open Scope Z_scope.
@@ -82,7 +82,7 @@ Example C01_witness_block : block_d :=
   mkBlockD [[]; [107]; [118]; [117]; []] false (Some 1000) None (Some 5) None
     [[IDense (mkDense [mkDN 10 100 (-200) (mkInfoD 3 1400000000 0 7 3 false) [(1, 2); (4, 2)];
                        mkDN 12 101 (-199) (mkInfoD 4 1400000060 0 8 0 true) []]
-                      true (mkFl true true false false true false) true)];
+                      true (mkFl true true false false true false) true false)];
      [IWay (mkWayD 7 true (mkFl true true false false true false) (mkInfoD 3 1400000000 0 0 3 true)
                    [(1, 2)] false [10; 8] false true [1; 2] [-1; -2]);
       IRel (mkRelD 9 false (mkFl false false false false false false) (mkInfoD 0 0 0 0 0 true)
@@ -93,6 +93,20 @@ Example C01_witness_run :
   scan_result cfg_all dstate0 (encode_block C01_witness_block) = Ok (elements C01_witness_block)
   /\ length (elements C01_witness_block) = 4%nat.
 Proof. vm_compute. split; reflexivity. Qed.
+
+(* both encodings of a group without nodes: the empty DenseNodes message (what protobuf encoders
+   write; accepted since fix e69cac9) and the three mandatory columns with length 0 *)
+Example C01_witness_empty_dense :
+  let fl0 := mkFl false false false false false false in
+  let b := mkBlockD [[]] false None None None None
+             [[IDense (mkDense [] false fl0 false true)]; [IDense (mkDense [] false fl0 false false)];
+              [IDense (mkDense [mkDN 1 2 3 (mkInfoD 0 0 0 0 0 true) []] false fl0 false true)]] in
+  valid_block b = true
+  /\ encode_block b = [(1, WMsg [(1, WStr [])]); (2, WMsg [(2, WMsg [])]);
+                       (2, WMsg [(2, WMsg [(1, WPacked []); (8, WPacked []); (9, WPacked [])])]);
+                       (2, WMsg [(2, WMsg [(1, WPacked [2]); (8, WPacked [4]); (9, WPacked [6])])])]
+  /\ scan_result cfg_all dstate0 (encode_block b) = Ok [ONode (mkNode 1 200 300 info0 [])].
+Proof. vm_compute. repeat split; reflexivity. Qed.
 
 (* 4. header_faithful: Header() reports the header block unchanged — bounding box in integer
       nanodegrees (left/right/bottom/top -> MinLon/MaxLon/MinLat/MaxLat), required and optional
@@ -148,8 +162,10 @@ Print Assumptions C01_block_decoder_never_panics.
       numbers dropped and the fields of every message (block, dense, dense info, way, relation, info)
       stably sorted by number — primitive groups keep the order of their items, because that is the
       order of the elements.  Any message tree m whose canonical form is the reference encoding of a
-      valid description b — i.e. b's fields written in any order, at every nesting level, with any
-      unknown fields interspersed — decodes, under every configuration and from every decoder state,
+      valid description b — i.e. b's fields written in any order, at every nesting level, with
+      unknown fields interspersed whose numbers no OSM PBF message uses (outside 1-10, 16-20, 32-34:
+      known_num is one set for all messages, so e.g. an extension field numbered 6 inside a Way is
+      not dropped by canon_block and such a tree is outside this theorem) — decodes, under every configuration and from every decoder state,
       to exactly the kept elements of b.  (Judgement 3 of the correspondence check establishes the
       hypothesis canon_block m = encode_block b for every block fed to the implementation.) *)
 Theorem C01_field_order_irrelevant : forall b m,
@@ -286,12 +302,21 @@ Proof.
 Qed.
 Print Assumptions C01_pipeline_completed_run.
 
-(* non-vacuity: the witness block as a two-block file, 3 workers: the instantiated input, and a state
-   reached by a complete fair run *)
+(* non-vacuity: the witness block as a two-block file: the instantiated input (next Example: a state
+   reached by a complete fair run of 3 workers satisfies the hypotheses of C01_pipeline_completed_run) *)
 Example C01_witness_pipeline :
   let f := [C01_witness_block; C01_witness_block] in
   valid_file f = true /\ inst cfg_all f = [Compose.PL.IBlock [0; 1; 2; 3]%Z; Compose.PL.IBlock [4; 5; 6; 7]%Z]
   /\ map (lab cfg_all f) [0; 1; 2; 3; 4; 5; 6; 7]%Z = elements_file f.
+Proof. vm_compute. repeat split; reflexivity. Qed.
+
+Example C01_witness_pipeline_run :
+  let f := [C01_witness_block; C01_witness_block] in
+  let c := pcfg 3 8 (inst cfg_all f) in
+  let r := Verif.Pipeline.Exec.scan_all c 200 20 (Compose.PL.init c) in
+  map (lab cfg_all f) (Compose.PL.delivered (fst r)) = elements_file f /\ snd r = true
+  /\ Compose.PL.err_value (fst r) = 0%Z /\ Compose.PL.s_err (fst r) = Compose.PL.eEOF
+  /\ Compose.PL.closed (fst r) = false /\ Compose.PL.pcancelled (fst r) = false.
 Proof. vm_compute. repeat split; reflexivity. Qed.
 
 (* 11. TIE BY TRANSLATION, loop bodies.  Beyond the dispatch (section 9) the translator re-reads, on
@@ -307,6 +332,7 @@ Proof. vm_compute. repeat split; reflexivity. Qed.
       shape, slice allocation, the two-pass structure of scanPrimitiveBlock. *)
 Theorem C01_decoder_loop_structure_matches_source :
   (forall fi ic, nil_info fi ic = nil_info_t fi ic) /\ (forall s, dense_fixup s = dense_fixup_t s)
+  /\ (forall fd, dense_empty fd = dense_empty_t fd)
   /\ (forall p v x, extract_pre p v x = extract_pre_t p v x)
   /\ (forall f l prev index nodes, fill f l prev index nodes = fill_t ASint64 (kind_of 8 way_accum) f l prev index nodes)
   /\ dense_rules = GenPbfCode.found_scanDenseNodes /\ way_rules = GenPbfCode.found_scanWays
